@@ -23,6 +23,7 @@ import (
 	"github.com/uber/kraken/lib/torrent/networkevent"
 	"github.com/uber/kraken/lib/torrent/scheduler/announcequeue"
 	"github.com/uber/kraken/lib/torrent/scheduler/conn"
+	"github.com/uber/kraken/lib/torrent/scheduler/dispatch"
 	"github.com/uber/kraken/lib/torrent/storage"
 	"github.com/uber/kraken/lib/torrent/storage/agentstorage"
 	"github.com/uber/kraken/lib/torrent/storage/piecereader"
@@ -257,8 +258,33 @@ func (b *vBlob) piece(i int) []byte {
 	return b.content[s:e]
 }
 
+// vClock is the injected clock: a clock.Mock whose timers never fire (the harnesses apply tick
+// events themselves) plus an offset that the harness advances; unlike Mock.Add it does not sleep.
+type vClock struct {
+	*clock.Mock
+	mu  sync.Mutex
+	off time.Duration
+}
+
+func (c *vClock) Now() time.Time {
+	c.mu.Lock()
+	defer c.mu.Unlock()
+	return c.Mock.Now().Add(c.off)
+}
+
+func (c *vClock) Since(t time.Time) time.Duration { return c.Now().Sub(t) }
+
+func (c *vClock) advance(d time.Duration) {
+	c.mu.Lock()
+	defer c.mu.Unlock()
+	c.off += d
+}
+
+// vWorld is one real scheduler (unstarted: no listener, no ticker loops) over real agent storage.
+// It is reused by consecutive cases with the same number of pieces: reset() tears down what the
+// previous case left, deletes its files and starts from a fresh scheduler state.
 type vWorld struct {
-	clk      *clock.Mock
+	clk      *vClock
 	loop     *vLoop
 	sched    *scheduler
 	st       *state
@@ -271,20 +297,42 @@ type vWorld struct {
 	peers    []*vPeer    // fake peer attached to the current dispatcher, per blob
 	peerCtrl []*torrentControl
 	npeers   int
+	base     time.Time // clock reading at the start of the current case
 	cleanup  func()
 }
 
-var vEpoch = time.Unix(0, 0)
+var vWorlds = map[string]*vWorld{}
 
-func newVWorld(seederTTI, leecherTTI time.Duration, np, ntor int) *vWorld {
+// vWorldFor returns the (reset) world for blobs of np pieces and ntor torrents.
+func vWorldFor(seederTTI, leecherTTI time.Duration, np, ntor int) *vWorld {
+	k := fmt.Sprintf("%d/%d", np, ntor)
+	w, ok := vWorlds[k]
+	if !ok {
+		w = newVWorld(np, ntor)
+		vWorlds[k] = w
+	}
+	w.reset(seederTTI, leecherTTI)
+	return w
+}
+
+// vCloseWorlds releases every world (end of the test function).
+func vCloseWorlds() {
+	for k, w := range vWorlds {
+		w.reset(time.Hour, time.Hour)
+		w.cleanup()
+		delete(vWorlds, k)
+	}
+}
+
+func newVWorld(np, ntor int) *vWorld {
 	cads, cleanup := store.CADownloadStoreFixture()
 	mic := metainfoclient.NewTestClient()
 	ta := agentstorage.NewTorrentArchive(tally.NoopScope, cads, mic)
-	clk := clock.NewMock()
+	clk := &vClock{Mock: clock.NewMock()}
 	loop := &vLoop{}
 	config := Config{
-		SeederTTI:          seederTTI,
-		LeecherTTI:         leecherTTI,
+		SeederTTI:          time.Hour,
+		LeecherTTI:         time.Hour,
 		PreemptionInterval: 1000 * time.Hour,
 		EmitStatsInterval:  1000 * time.Hour,
 		ConnTTI:            1000 * time.Hour,
@@ -302,8 +350,7 @@ func newVWorld(seederTTI, leecherTTI time.Duration, np, ntor int) *vWorld {
 	if err != nil {
 		panic(err)
 	}
-	w := &vWorld{clk: clk, loop: loop, sched: s, st: newState(s, announcequeue.New()), cads: cads, ta: ta, mic: mic,
-		np: np, cleanup: cleanup}
+	w := &vWorld{clk: clk, loop: loop, sched: s, cads: cads, ta: ta, mic: mic, np: np, cleanup: cleanup}
 	for i := 0; i < ntor; i++ {
 		b := vBlobFor(i, np)
 		if err := mic.Upload(b.mi); err != nil {
@@ -317,21 +364,37 @@ func newVWorld(seederTTI, leecherTTI time.Duration, np, ntor int) *vWorld {
 	return w
 }
 
-// close tears the world down: dispatchers are torn down so that their goroutines exit.
-func (w *vWorld) close() {
-	for _, ctrl := range w.st.torrentControls {
-		ctrl.dispatcher.TearDown()
+// reset tears down what the previous case left (dispatchers, fake peers, files, queued events) and
+// installs a fresh scheduler state with the given idle limits.
+func (w *vWorld) reset(seederTTI, leecherTTI time.Duration) {
+	if w.st != nil {
+		for _, ctrl := range w.st.torrentControls {
+			ctrl.dispatcher.TearDown()
+		}
 	}
-	for _, p := range w.peers {
+	for i, p := range w.peers {
 		if p != nil {
 			p.Close()
 			p.recvOnce.Do(func() { close(p.recv) })
 		}
+		w.peers[i], w.peerCtrl[i], w.tors[i] = nil, nil, nil
 	}
-	w.cleanup()
+	for _, b := range w.blobs {
+		w.cads.Any().DeleteFile(b.digest.Hex())
+	}
+	w.loop.mu.Lock()
+	w.loop.q, w.loop.stopped = nil, false
+	w.loop.mu.Unlock()
+	w.sched.config.SeederTTI = seederTTI
+	w.sched.config.LeecherTTI = leecherTTI
+	w.st = newState(w.sched, announcequeue.New())
+	w.base = w.clk.Now()
 }
 
-func (w *vWorld) now() int64 { return w.clk.Now().Sub(vEpoch).Nanoseconds() }
+// ns converts a time of the real code into nanoseconds since the start of the case.
+func (w *vWorld) ns(t time.Time) int64 { return t.Sub(w.base).Nanoseconds() }
+
+func (w *vWorld) now() int64 { return w.ns(w.clk.Now()) }
 
 func (w *vWorld) ctrl(i int) *torrentControl {
 	return w.st.torrentControls[w.blobs[i].mi.InfoHash()]
@@ -446,12 +509,12 @@ func (w *vWorld) deliverPiece(i, pi int, good bool) string {
 	}
 }
 
-// takeCompletion waits for the DispatcherComplete notice of torrent i's current dispatcher.
-func (w *vWorld) takeCompletion(i int, wait time.Duration) (dispatcherCompleteEvent, bool) {
-	h := w.blobs[i].mi.InfoHash()
+// takeCompletion waits for the DispatcherComplete notice sent by dispatcher d and removes it from
+// the queue.
+func (w *vWorld) takeCompletion(d *dispatch.Dispatcher, wait time.Duration) (dispatcherCompleteEvent, bool) {
 	e, ok := w.loop.take(func(e event) bool {
 		ce, ok := e.(dispatcherCompleteEvent)
-		return ok && ce.dispatcher.InfoHash() == h
+		return ok && ce.dispatcher == d
 	}, wait)
 	if !ok {
 		return dispatcherCompleteEvent{}, false
